@@ -277,7 +277,8 @@ def mp4(ctx, R):
         "stream holding an index (TDSh)": ({"hasattr": True, "TDSh": True, "TDSm": False}, True),
         "stream holding data (TDSm)": ({"hasattr": True, "TDSh": False, "TDSm": True}, False),
         "path of a .tdms_index file": ({"hasattr": False, "endswith": True}, True),
-        "path of a .tdms file": ({"hasattr": False, "endswith": False}, False),
+        "path of a .tdms file without index": ({"hasattr": False, "endswith": False, "isfile": False}, False),
+        "path of a .tdms file with an index beside it": ({"hasattr": False, "endswith": False, "isfile": True}, False),
     }
     icfg = CFG(init.node, may_raise=lambda n: n.kind == "raisestmt")
     for name, (ans, want) in scen.items():
@@ -291,6 +292,8 @@ def mp4(ctx, R):
                 return ans.get("TDSm")
             if "endswith" in t:
                 return ans.get("endswith")
+            if "isfile" in t:
+                return ans.get("isfile")
             return None
         # facts after construction
         facts = {}
